@@ -32,7 +32,7 @@ type tapCase struct {
 	Internal int        `json:"internal_key"` // pool index
 	LeafKey  int        `json:"leaf_key"`     // pool index
 	LeafKind int        `json:"leaf_kind"`    // 0 <pk> CHECKSIG, 1 <pk> CHECKSIGVERIFY 1, 2 0 <pk> CHECKSIGADD
-	PreOps   int        `json:"pre_ops"`      // (OP_1 OP_DROP) pairs in front
+	PreOps   int        `json:"pre_ops"`      // (PUSH2 <aabb> OP_DROP) pairs in front: 2 opcodes, 4 bytes each
 	CodeSep  bool       `json:"codesep"`      // OP_CODESEPARATOR after them
 	Nodes    []string   `json:"nodes"`        // merkle path (script path) / merkle root (key path, at most one)
 	Annex    *string    `json:"annex"`
@@ -158,7 +158,7 @@ func buildTap(c tapCase) (*tapBuilt, error) {
 		lk := keys()[c.LeafKey]
 		var ls []byte
 		for i := 0; i < c.PreOps; i++ {
-			ls = append(ls, 0x51, 0x75)
+			ls = append(ls, 0x02, 0xaa, 0xbb, 0x75)
 		}
 		if c.CodeSep {
 			ls = append(ls, 0xab)
